@@ -103,6 +103,12 @@ func (s *JavaRefactorListener) EnterAnnotation(ctx *AnnotationContext) {
 
 	field := model.JField{Name: annotation, Source: node.Pkg, StartLine: startLine, StopLine: stopLine}
 	node.AddField(field)
+
+	// @Outer.Inner refers to the imported type Outer
+	if dot := strings.Index(annotation, "."); dot > 0 {
+		outer := model.JField{Name: annotation[:dot], Source: node.Pkg, StartLine: startLine, StopLine: stopLine}
+		node.AddField(outer)
+	}
 }
 
 func (s *JavaRefactorListener) EnterLambdaParameters(ctx *LambdaParametersContext) {
